@@ -70,3 +70,44 @@ def class_respelled_via_method(kind, detail, case):
   except Exception:  # pylint: disable=broad-except
     return False
   return False
+
+
+def _walk_json(x):
+  yield x
+  if isinstance(x, dict):
+    for v in x.values():
+      yield from _walk_json(v)
+  elif isinstance(x, (list, tuple)):
+    for v in x:
+      yield from _walk_json(v)
+
+
+def subclass_with_base_repr(kind, detail, case):
+  """F55 (C06): the case binds an instance of a subclass of int / str / float that inherits the base type's repr
+  (harness value kinds intplain / strplain / floatplain): its text is the base literal, so it is emitted and restored
+  as the base type."""
+  try:
+    return any(isinstance(x, list) and len(x) >= 2 and x[0] == 'eqv' and x[1] in ('intplain', 'strplain', 'floatplain')
+               for x in _walk_json(case))
+  except Exception:  # pylint: disable=broad-except
+    return False
+
+
+def _unorderable_key(k):
+  return isinstance(k, list) and k and k[0] in ('ref', 'dref', 'macro', 'complex', 'c', 't', 'tuple', 'eqv')
+
+
+def unorderable_dict_keys(kind, detail, case):
+  """F56 (C06): the case holds a dict with two or more keys that Python cannot order among themselves (references,
+  macros, complex numbers, tuples of mixed types): pprint falls back to ordering them by id(), i.e. by allocation order."""
+  try:
+    if isinstance(case, dict) and case.get('kind') == 'keys':
+      return len(case.get('items', [])) >= 2
+    for x in _walk_json(case):
+      if isinstance(x, list) and len(x) == 2 and x[0] == 'd' and isinstance(x[1], list):
+        keys = [it[0] for it in x[1] if isinstance(it, list) and len(it) == 2]
+        if sum(1 for k in keys if _unorderable_key(k)) >= 2:
+          return True
+  except Exception:  # pylint: disable=broad-except
+    pass
+  return False
